@@ -7,7 +7,7 @@ git checkout -q -- . 2>/dev/null; git apply "$SD/patch.diff" || { echo "$ID: pat
 make -j8 >/dev/null 2>&1
 okc=$(make test 2>&1 | grep -c '^ok'); bad=$(make test 2>&1 | grep -ci 'not ok\|assertion\|aborted\|segmentation')
 build_demo() { (cd "$SD" && gcc -O1 -o demo_bin demo.c -I$WT/include/erasurecode -I$WT/include -I$WT/include/xor_codes -I$WT/include/rs_vand -L$WT/src/.libs -lerasurecode -L$WT/src/builtin/xor_codes/.libs -L$WT/src/builtin/rs_vand/.libs -ldl -lz -lpthread -Wl,-rpath,$WT/src/.libs -Wl,-rpath,$WT/src/builtin/xor_codes/.libs -Wl,-rpath,$WT/src/builtin/rs_vand/.libs -Wl,-rpath,$WT/src/builtin/null_code/.libs 2>/dev/null); }
-run_demo() { if build_demo; then (cd "$SD" && timeout 600 ./demo_bin >/dev/null 2>&1; echo $?); else echo "build-failed"; fi; }
+run_demo() { if [ -f "$SD/run_demo.sh" ]; then (cd "$SD" && timeout 900 bash ./run_demo.sh >/dev/null 2>&1; echo $?); elif build_demo; then (cd "$SD" && timeout 600 ./demo_bin >/dev/null 2>&1; echo $?); else echo "build-failed"; fi; }
 with=$(run_demo)
 git apply -R "$SD/patch.diff"; make -j8 >/dev/null 2>&1
 without=$(run_demo)
